@@ -9,7 +9,7 @@
 //!   seq new W H | newfrom W H N | newwith W H | ms W H S N | is W H S N   <op>…
 //!   op  := get X Y | idx X Y | set X Y V | gset X Y V | row I | rset I J V | rows | iter
 //!        | rowsm V | iterm V | fill V | fillw V | copys W H S N | copyb W H | dims
-//!        | copybv W H | copym W H S N l t r b
+//!        | copybv W H | copym W H S N l t r b | dbg | dmut I V   (dmut: Buf2::data_mut(), owned root only)
 //!        | sub RECT op… end | isub RECT op… end | asm op… end | asr op… end   (wrapper's AsMutSlice2 / AsSlice2 impl)
 //!        | asmi op… end | asri op… end                                          (inherent Inner::as_mut_slice2 / as_slice2)
 //!   RECT := A | P l t r b | T hk ha hb vk va vb      (k in F R RI FR TO TOI XE XI XU)
@@ -142,6 +142,8 @@ trait RoView {
     fn inner(&self) -> &Inner<u32, Self::D>;
     /// `<Wrapper as AsSlice2>::as_slice2`
     fn tr_as_slice2(&self) -> Slice2<'_, u32>;
+    /// `format!("{:?}", wrapper)`
+    fn dbg(&self) -> String;
 }
 trait RwView: RoView
 where
@@ -150,6 +152,10 @@ where
     fn inner_mut(&mut self) -> &mut Inner<u32, Self::D>;
     /// `<Wrapper as AsMutSlice2>::as_mut_slice2`
     fn tr_as_mut_slice2(&mut self) -> MutSlice2<'_, u32>;
+    /// `Buf2::data_mut()`; the borrowed views have no public access to their backing slice
+    fn tr_data_mut(&mut self) -> Option<&mut [u32]> {
+        None
+    }
 }
 impl RoView for Buf2<u32> {
     type D = Vec<u32>;
@@ -159,6 +165,9 @@ impl RoView for Buf2<u32> {
     fn tr_as_slice2(&self) -> Slice2<'_, u32> {
         <Buf2<u32> as AsSlice2<u32>>::as_slice2(self)
     }
+    fn dbg(&self) -> String {
+        format!("{self:?}")
+    }
 }
 impl RwView for Buf2<u32> {
     fn inner_mut(&mut self) -> &mut Inner<u32, Vec<u32>> {
@@ -166,6 +175,9 @@ impl RwView for Buf2<u32> {
     }
     fn tr_as_mut_slice2(&mut self) -> MutSlice2<'_, u32> {
         <Buf2<u32> as AsMutSlice2<u32>>::as_mut_slice2(self)
+    }
+    fn tr_data_mut(&mut self) -> Option<&mut [u32]> {
+        Some(self.data_mut())
     }
 }
 impl<'a> RoView for Slice2<'a, u32> {
@@ -176,6 +188,9 @@ impl<'a> RoView for Slice2<'a, u32> {
     fn tr_as_slice2(&self) -> Slice2<'_, u32> {
         <Slice2<'a, u32> as AsSlice2<u32>>::as_slice2(self)
     }
+    fn dbg(&self) -> String {
+        format!("{self:?}")
+    }
 }
 impl<'a> RoView for MutSlice2<'a, u32> {
     type D = &'a mut [u32];
@@ -184,6 +199,9 @@ impl<'a> RoView for MutSlice2<'a, u32> {
     }
     fn tr_as_slice2(&self) -> Slice2<'_, u32> {
         <MutSlice2<'a, u32> as AsSlice2<u32>>::as_slice2(self)
+    }
+    fn dbg(&self) -> String {
+        format!("{self:?}")
     }
 }
 impl<'a> RwView for MutSlice2<'a, u32> {
@@ -225,6 +243,17 @@ fn read_op<W: RoView>(wv: &W, op: &str, c: &mut Cur, out: &mut Vec<String>) -> b
         "dims" => {
             let (w, h) = v.dims();
             assert!(w == v.width() && h == v.height(), "harness: dims() disagrees with width()/height()");
+            out.push(format!("d:{},{},{},{},{}", w, h, v.stride(), v.is_contiguous() as u8, v.is_empty() as u8));
+        }
+        "dbg" => {
+            // Debug must not panic and must show the dimensions and the stride; then as `dims`
+            let text = wv.dbg();
+            let (w, h) = v.dims();
+            let named = ["Buf2", "Slice2", "Slice2Mut"].iter().any(|n| text.starts_with(&format!("{n} {{")));
+            assert!(
+                named && text.contains(&format!("dims: ({w}, {h})")) && text.contains(&format!("stride: {}", v.stride())),
+                "harness: Debug output {text:?} lacks name/dims/stride"
+            );
             out.push(format!("d:{},{},{},{},{}", w, h, v.stride(), v.is_contiguous() as u8, v.is_empty() as u8));
         }
         "isub" => {
@@ -282,6 +311,13 @@ where
             "set" => {
                 let (x, y, a) = (c.u32(), c.u32(), c.u32());
                 v[[x, y]] = a;
+                out.push("ok".into());
+            }
+            "dmut" => {
+                // Buf2::data_mut()[i] = a (owned root only)
+                let (i, a) = (c.usize(), c.u32());
+                let data = wv.tr_data_mut().unwrap_or_else(|| panic!("harness: dmut on a borrowed view"));
+                data[i] = a;
                 out.push("ok".into());
             }
             "gset" => {
@@ -553,7 +589,7 @@ fn probe(w: u32, h: u32, k: &mut u32, rw: bool, rng: &mut Rng) -> String {
         *k += 17;
         10_000 + *k
     };
-    let mut ops: Vec<String> = vec!["dims".into(), "rows".into()];
+    let mut ops: Vec<String> = vec![if rng.chance(1, 3) { "dbg".into() } else { "dims".into() }, "rows".into()];
     if w > 0 && h > 0 {
         let (x, y) = (rng.below(w as u64) as u32, rng.below(h as u64) as u32);
         ops.push(format!("get {x} {y}"));
@@ -654,6 +690,7 @@ fn random_history(rng: &mut Rng, max_dim: u64, bad_rate: u64) -> String {
     let mut line;
     let mut rw = true;
     let kind = rng.below(10);
+    let owned = kind < 4;
     if kind < 4 {
         let c = *rng.pick(&["new", "newwith", "newfrom"]);
         line = if c == "newfrom" {
@@ -704,6 +741,11 @@ fn random_history(rng: &mut Rng, max_dim: u64, bad_rate: u64) -> String {
             4 | 5 if stack.len() > 1 => {
                 line += " end";
                 stack.pop();
+            }
+            6 if owned && stack.len() == 1 && w * h > 0 => {
+                // a store through Buf2::data_mut(), later read through views
+                k += 13;
+                line += &format!(" dmut {} {}", rng.below((w * h) as u64), 20_000 + k);
             }
             _ => {
                 line += " ";
@@ -812,6 +854,18 @@ pub fn gen(rng: &mut Rng, tier: Tier, out: &mut Vec<String>) {
             }
         }
     }
+    // ---- Buf2::data_mut(): every element of a small buffer written, seen through every kind of view
+    for (w, h) in [(3u32, 2u32), (2, 3), (1, 1), (4, 1)] {
+        for i in 0..=w * h {
+            out.push(format!(
+                "seq newwith {w} {h} dmut {i} 777 rows dbg sub P 0 0 {w} {h} rows dbg sub P {} {} {w} {h} iter dbg end end asr rows dbg end isub A iter dbg end iter",
+                w / 2, h / 2
+            ));
+        }
+        out.push(format!("seq new {w} {h} dmut {} 5", (1u64 << 32) + 1));
+    }
+    out.push("seq new 0 3 dmut 0 1".into());
+    out.push("seq is 2 2 3 5 dbg isub P 1 0 2 2 dbg end asr dbg end".into());
     // ---- constructors: every small (dims, stride, length) combination
     let cmax = if q { 3 } else { 5 };
     for w in 0..=cmax {
